@@ -64,7 +64,15 @@ class Ctx:
             if b:
                 self.chk.fail(f"{b}|{family}|{opname}",
                               f"{opname}: result {type(t).__name__} of shape {t.shape}",
-                              {"python": src + L.ORACLE_SRC + ASSERT_GOOD, "operation": opname})
+                              {"python": guard_last(src) + L.ORACLE_SRC + ASSERT_GOOD, "operation": opname})
+
+
+def guard_last(src):
+    """the replay judges the value an operation returns: an operation that raises instead (as the
+    unchanged tree may) returns nothing to judge"""
+    lines = src.rstrip("\n").split("\n")
+    last = lines[-1]
+    return "\n".join(lines[:-1] + ["try:", "    " + last, "except Exception:", "    r = None"]) + "\n"
 
 
 ASSERT_GOOD = (
@@ -311,7 +319,7 @@ def s4_constructors(ctx):
                     # oracle: a quantity never has more than one element; ndarray input is viewed
                     if isinstance(r, unyt.unyt_quantity) and r.size > 1:
                         chk.fail(f"multi-quantity|ctor|{cname}", f"{cname}(...) built a quantity with {r.size} elements",
-                                 {"python": src + "assert not (isinstance(r, unyt_quantity) and r.size > 1), r.shape\n"})
+                                 {"python": guard_last(src) + "assert not (isinstance(r, unyt_quantity) and r.size > 1), r.shape\n"})
                     if iname == "ndarray" and r.size > 0 and not bypass and which == "array" and not np.shares_memory(r, inp):
                         chk.fail(f"not-view|ctor|{cname}(ndarray)", "the constructor copied a NumPy array",
                                  {"python": src + "assert np.shares_memory(r, inp)\n"})
@@ -482,6 +490,8 @@ def operand(kind, shape, unit):
         return "ndarray", arr, True
     if kind == "L":
         return "list", f"{arr}.tolist()", True
+    if kind == "T":
+        return "tuple", f"tuple({arr}.tolist())", True
     if kind == "F":
         return "float", "2.0", True
     if kind == "I":
@@ -501,6 +511,7 @@ def kind_shape(kind, shape):
 
 UNARY_OPERANDS = [("Q", ()), ("Q1", (1,)), ("SQ", ()), ("S", (3,)), ("S", (1,)), ("S", (2, 3))]
 BIN_KINDS = [("A", "A"), ("A", "Q"), ("Q", "A"), ("Q", "Q"), ("A", "N"), ("N", "A"), ("Q", "N"), ("N", "Q"), ("Q", "L"), ("L", "Q"),
+             ("Q", "T"), ("T", "Q"),
              ("A", "L"), ("Q", "F"), ("F", "Q"), ("A", "F"), ("I", "A"), ("Q", "NP"), ("NP", "A"), ("S", "A"), ("A", "S"), ("S", "Q"),
              ("Q", "S"), ("S", "N"), ("N", "S"), ("SQ", "A"), ("A", "SQ"), ("SQ", "Q"), ("Q", "SQ"), ("SQ", "N"), ("Q1", "A"), ("Q1", "Q"),
              ("Q1", "N"), ("N", "Q1"), ("S", "S"), ("SQ", "SQ"), ("Q1", "Q1")]
@@ -598,12 +609,12 @@ def s6_ufuncs(ctx):
                 run_case(uf, "call", None, [(k, shp)], ("m",))
             run_case(uf, "call", None, [("A", (3,))], ("",))
         elif uf.nin == 2:
-            kinds = BIN_KINDS if (not quick or uf.__name__ in ("add", "multiply", "divide", "divmod", "power", "greater", "maximum", "arctan2", "matmul")) else BIN_KINDS[:14]
+            kinds = BIN_KINDS if (not quick or uf.__name__ in ("add", "multiply", "divide", "divmod", "power", "greater", "maximum", "arctan2", "matmul")) else BIN_KINDS[:16]
             shapes2 = BIN_SHAPES if (not quick or uf.__name__ in ("add", "multiply", "divide", "divmod")) else BIN_SHAPES[:7]
             for (k0, k1) in kinds:
                 both = k0 in "ASQ1SQ" and k1 in ("A", "S", "Q", "Q1", "SQ") and k0 in ("A", "S", "Q", "Q1", "SQ")
                 for (s0, s1) in shapes2:
-                    if (k0 == "L" and (len(s0) == 0 or 0 in s0)) or (k1 == "L" and (len(s1) == 0 or 0 in s1)):
+                    if (k0 in "LT" and (len(s0) == 0 or 0 in s0)) or (k1 in "LT" and (len(s1) == 0 or 0 in s1)):
                         continue
                     if k0 in ("Q", "SQ", "F", "I", "NP", "Q1") and s0 != BIN_SHAPES[0][0] and (s0, s1) != ((), (2, 3)) and s0 != ():
                         # the first operand's shape is fixed by its kind: visit each second shape once
@@ -711,6 +722,25 @@ def s7_functions(ctx):
                 if rule:
                     ctx.ask(f"c16.handler\t{rule}\t{L.shape_w(r.shape)}", ["ok", L.cls_name(r) if kind != "S" or type(r) in (unyt.unyt_array, unyt.unyt_quantity) else L.cls_name(r), L.shape_w(r.shape)], f"{expr_} on {kind}{shp}")
 
+    # the view-making methods on unyt parents against the model's `viewOp` (class and shape)
+    for kind, shp in par + [("A", ())]:
+        env = L.make_env(shp, kind)
+        x = env["x"]
+        n = x.size
+        vops = [("squeeze", "_", "x.squeeze()"), ("transpose", "_", "x.T"), ("ravel", "_", "x.ravel()"), ("repeat", "2", "x.repeat(2)"),
+                ("expandDims", "0", "np.expand_dims(x, 0)"), ("squeezeAxis", "0", "x.squeeze(axis=0)")]
+        for t, tsrc in [((), "()"), ((-1,), "-1"), ((1,), "1"), ((1,), "(1,)"), ((1, 1), "1, 1"), ((1, -1), "(1, -1)"), ((n,), str(n)), ((-1, 1), "(-1, 1)"), ((2, -1), "(2, -1)")]:
+            vops.append(("reshape", L.ints_w(t), f"x.reshape({tsrc})"))
+        for k, arg, expr in vops:
+            st, r = outcome(lambda: eval(expr, env))
+            chk.case(("viewop", kind, shp, expr))
+            chk.count("S7:viewop")
+            line = f"c16.view\t{PARENT_CLS[kind]}\t{L.shape_w(x.shape)}\t{k}\t{arg}"
+            if st == "err":
+                en = core.exc_name(r)
+                ctx.ask(line, ["err", "AxisError" if "AxisError" in en else en], f"{kind}{shp}: {expr}")
+            else:
+                ctx.ask(line, ["ok", L.cls_name(r), L.shape_w(r.shape)], f"{kind}{shp}: {expr}")
 
 # ==========================================================================================
 # S8 — the witnesses of the `…_counterexample` theorems, replayed on the real code
